@@ -202,6 +202,35 @@ def _one_shot_params(idx):
         posn, _ = _param_names(info.node)
         if pos < len(posn):
             work.append((key, posn[pos]))
+    # further roots: any call of a package function with a one-shot iterator expression as argument
+    ONE_SHOT_CALLS = ("reversed", "iter", "map", "filter", "zip", "enumerate", "islice", "chain", "groupby", "product")
+
+    def one_shot_expr(e):
+        if isinstance(e, ast.GeneratorExp):
+            return True
+        if isinstance(e, ast.Call):
+            fn = e.func.attr if isinstance(e.func, ast.Attribute) else (e.func.id if isinstance(e.func, ast.Name) else None)
+            return fn in ONE_SHOT_CALLS
+        return False
+    for key, info in idx.funcs.items():
+        for n in ast.walk(info.node):
+            if not isinstance(n, ast.Call):
+                continue
+            fname = n.func.attr if isinstance(n.func, ast.Attribute) else (n.func.id if isinstance(n.func, ast.Name) else None)
+            cands = [k for k in idx.funcs if k.split(":")[1].split(".")[-1] == fname] if fname else []
+            if not cands or not any(one_shot_expr(a_) for a_ in list(n.args) + [k_.value for k_ in n.keywords]):
+                continue
+            owner = key.rsplit(".", 1)[0]
+            same = [k for k in cands if k.rsplit(".", 1)[0] == owner] or [k for k in cands if k.split(":")[0] == key.split(":")[0]] or cands
+            k = same[0]
+            posn, kwn = _param_names(idx.funcs[k].node)
+            off = 1 if (posn and posn[0] in ("self", "cls") and isinstance(n.func, ast.Attribute)) else 0
+            for i, a_ in enumerate(n.args):
+                if one_shot_expr(a_) and i + off < len(posn):
+                    work.append((k, posn[i + off]))
+            for kw in n.keywords:
+                if one_shot_expr(kw.value) and kw.arg in posn + kwn:
+                    work.append((k, kw.arg))
     while work:
         key, pn = work.pop()
         if (key, pn) in seen:
